@@ -1,6 +1,6 @@
 """C15 -- CoAP over TCP: framing independent of segmentation, signalling rules enforced.
 
-1. TLC checks spec/CoapTcp.tla exhaustively: every sequence of up to 3 of 17
+1. TLC checks spec/CoapTcp.tla exhaustively: every sequence of up to 3 of 18
    message archetypes, every chunking of the resulting byte stream, the
    clauses of the property as invariants over the receiver of CoapTcpFrame.
 2. spec -> code: behaviours of that model (tlc -simulate: archetype sequence,
@@ -40,7 +40,7 @@ CLAUSES = [
 ]
 
 MODEL_MAXMSG = 16
-NARCH = 17
+NARCH = 18
 
 MC_CFG = """SPECIFICATION Spec
 CONSTANTS
